@@ -71,6 +71,11 @@ def _monitor(spec, out0):
     cname = world["class"]
     if out0.get("construct_exc") or out0.get("solve_exc"):
         return vs, counters
+    if args.get("error_scaling") and cname in ("kLeastAbsErrors", "kLeastAbsErrorsCycles"):
+        # with error_scaling the value these two classes report is not the quantity they minimise
+        # (reported: unscaled error sum; minimised: scaled) - objective relations are not meaningful there (C07's matter)
+        counters["monitor:skipped_error_scaling"] = 1
+        return vs, counters
     ign = args.get("elements_to_ignore")
     g = world["graph"]
     if ign and not mr._node_mode(world) and cname not in models.COVER_CLASSES:
